@@ -26,6 +26,7 @@ import (
 	"reflect"
 	"runtime/debug"
 	"strings"
+	"sync"
 
 	"github.com/go-python/gpython/py"
 )
@@ -452,6 +453,31 @@ var PrintExpr = func(out string) {
 	_, _ = os.Stdout.WriteString(out + "\n")
 }
 
+// Per context overrides of PrintExpr, keyed by py.Context
+var printExprs sync.Map
+
+// SetPrintExpr sets where the output of PRINT_EXPR goes for code run
+// in ctx, instead of the process wide PrintExpr. A nil fn removes it.
+//
+// Unlike changing PrintExpr this is safe to use while other contexts
+// are running.
+func SetPrintExpr(ctx py.Context, fn func(out string)) {
+	if fn == nil {
+		printExprs.Delete(ctx)
+	} else {
+		printExprs.Store(ctx, fn)
+	}
+}
+
+// printExpr outputs the value of an expression statement for the context
+func printExpr(ctx py.Context, out string) {
+	if fn, ok := printExprs.Load(ctx); ok {
+		fn.(func(out string))(out)
+		return
+	}
+	PrintExpr(out)
+}
+
 // Implements the expression statement for the interactive mode. TOS
 // is removed from the stack and printed. In non-interactive mode, an
 // expression statement is terminated with POP_STACK.
@@ -471,7 +497,7 @@ func do_PRINT_EXPR(vm *Vm, arg int32) error {
 	if err != nil {
 		return err
 	}
-	PrintExpr(fmt.Sprint(repr))
+	printExpr(vm.frame.Context, fmt.Sprint(repr))
 	vm.frame.Globals["_"] = value
 	return nil
 }
